@@ -6,7 +6,7 @@ CONSTANTS
   RCounts = {2}
   WCounts = {2}
   SOffs = {0}
-  VBufs <- MC_None
+  VBufs = {"no"}
   MFmts <- MC_None
   VSizes = {0}
   Extra <- MC_AllExtra
